@@ -173,7 +173,12 @@ func (x *Exec) applyContract(st *State, fr *Frame, site ssa.Instruction, c *Cont
 		e2.traceBase = traceBase
 		return &e2, res
 	}
+	coverName := fmt.Sprintf("cover:call:%s%s@%d", fr.prefix, c.Short, ord)
+	guarded := len(c.Ensures)+len(c.EnsuresA) > 0 || len(c.Preserves) > 0
 	normal := func(s *State) {
+		if guarded {
+			x.emitCoverQ(s, coverName, "the call of "+c.Key+" in "+fr.fn.Name()+" is reachable", true)
+		}
 		e2, res := doEffects(s, false)
 		for _, en := range c.Ensures {
 			if mentionsTrace(en.Expr) {
@@ -193,6 +198,12 @@ func (x *Exec) applyContract(st *State, fr *Frame, site ssa.Instruction, c *Cont
 		}
 		for _, en := range c.EnsuresA {
 			s.assume(e2.hyp(en))
+		}
+		// vacuity guard: what the callee's contract promises must be consistent with what the caller
+		// knows at this site (a contradictory 'ensures'/'preserves' would silently discharge
+		// everything after the call). One witness path per call site suffices.
+		if guarded {
+			x.emitCoverQ(s, coverName, "the state after the call of "+c.Key+" in "+fr.fn.Name()+" is satisfiable", false)
 		}
 		kn(s, res)
 	}
